@@ -952,14 +952,6 @@ func (p *Parser) Parse() (Statement, error) {
 		}
 	}
 
-	// Check syntax
-	err = expr.Check(checkCtx)
-	if err != nil {
-		return nil, err
-	}
-	if expr.ReturnType() != TBOOL {
-		return nil, NewSyntaxError(expr.GetPos(), "where statement result type should be boolean")
-	}
 	whereStmt := &WhereStmt{
 		Pos:  wherePos,
 		Expr: expr,
@@ -968,6 +960,23 @@ func (p *Parser) Parse() (Statement, error) {
 	selectStmt.Limit = limitStmt
 	selectStmt.Order = orderStmt
 	selectStmt.GroupBy = groupByStmt
-	err = selectStmt.ValidateFields(checkCtx)
-	return selectStmt, err
+
+	// Check syntax. The select fields come first: a field name in the filter
+	// or in another field stands for that field's expression, and the type of
+	// an expression is only final once the field names inside it are resolved.
+	// They are checked twice because a field may use a field that is defined
+	// after it: the second pass sees every field in its final form
+	for pass := 0; pass < 2; pass++ {
+		if err = selectStmt.ValidateFields(checkCtx); err != nil {
+			return selectStmt, err
+		}
+	}
+	err = expr.Check(checkCtx)
+	if err != nil {
+		return nil, err
+	}
+	if expr.ReturnType() != TBOOL {
+		return nil, NewSyntaxError(expr.GetPos(), "where statement result type should be boolean")
+	}
+	return selectStmt, nil
 }
